@@ -84,6 +84,9 @@ static void reset_blocks(void) {
     } }
     ntab = 0; nlive = 0; nused = 0; liveB = 0; gid[1] = gid[2] = 0;
 }
+/* `putself`: the caller passes pointers it got from the container (newmem=false) back into put().  While such a call runs the
+   aliased ranges count as caller data (event c<dst><C like any put); reading them after their block was freed is a use after free. */
+static struct { const unsigned char *p; size_t n; blk_t *b; } alias[2]; static int nalias;
 static int should_fail(void) { return (failk && nreq == failk) || (failfrom && nreq >= failfrom); }
 static blk_t *range_live(const void *q) {               /* live block of A containing q */
     for (int i = 0; i < nlive; i++) { blk_t *b = &tab[live_idx[i]]; if ((unsigned char *)q >= b->p && (unsigned char *)q < b->p + (b->size ? b->size : 1)) return b; }
@@ -147,6 +150,11 @@ static void note_copy(void *d, const void *s, size_t n, int is_memcpy) {
     }
     if (db->given) givenwrite++;
     if ((unsigned char *)d + n > db->p + db->size) oob++;
+    for (int i = 0; i < nalias; i++) if ((const unsigned char *)s >= alias[i].p && (const unsigned char *)s < alias[i].p + (alias[i].n ? alias[i].n : 1)) {
+        if (alias[i].b && !alias[i].b->live) uaf++;
+        else if ((const unsigned char *)s + n > alias[i].p + alias[i].n) oob++;
+        cpev("c%d<C", db->id); return;
+    }
     blk_t *sb = range_live(s);
     if (sb) { if ((const unsigned char *)s + n > sb->p + sb->size) oob++; cpev("c%d<%d", db->id, sb->id); return; }
     for (int i = 0; i < ncrange; i++) if ((const unsigned char *)s >= crange[i].p && (const unsigned char *)s < crange[i].p + (crange[i].n ? crange[i].n : 1)) {
@@ -325,9 +333,22 @@ static void begin_call(void) { nreq = 0; fired = 0; lockdelta = 0; }
 
 /* One API call on instance I (which = M_A or M_B).  Writes the canonical result into rf, returns 1 when the call reports failure.
    *perr receives errno of the call. ret[] receives blocks returned to the caller (A: kept; B: freed). */
+static qtreetbl_obj_t *tfind_data(qtreetbl_obj_t *o, const void *d) {
+    if (!o) return NULL; if (o->data == d) return o;
+    qtreetbl_obj_t *r = tfind_data(o->left, d); return r ? r : tfind_data(o->right, d);
+}
+static void set_alias(int which, const void *name, size_t namesize, const void *data, size_t datasize) {
+    nalias = 0;
+    if (which != M_A) return;
+    alias[nalias].p = data; alias[nalias].n = datasize; alias[nalias].b = range_live(data); nalias++;
+    alias[nalias].p = name; alias[nalias].n = namesize; alias[nalias].b = range_live(name); nalias++;
+}
+/* "off:len:mode" of putself: value = stored value[off, off+len); mode bit 0: the key pointer is the stored name too; len -1 = to the end */
+#define SELFARGS size_t so = 0, sl = 0; long sll = 0; int sm = 0; sscanf(a2, "%zu:%ld:%d", &so, &sll, &sm)
+#define SELFLEN(ds) (sl = sll < 0 ? ((ds) >= so ? (ds) - so : 0) : (size_t)sll)
 static int nret; static void *ret[128];
 static int do_op(int which, inst_t *I, const char *op, int *perr) {
-    int failed = 0; nret = 0; ncrange = 0;
+    int failed = 0; nret = 0; ncrange = 0; nalias = 0;
     size_t n1 = unhex(a1, b1), n2 = unhex(a2, b2);
     int idx = atoi(a1);
     #define ENTER do { errno = 0; mode = which; } while (0)
@@ -379,6 +400,10 @@ static int do_op(int which, inst_t *I, const char *op, int *perr) {
         if (!strcmp(op, "put")) { void *k = cbuf(b1, n1), *v = n2 ? cbuf(b2, n2) : NULL; ENTER; bool r = qtreetbl_putobj(t, k, n1, v, n2); LEAVE; cfree(k, n1); cfree(v, n2); BOOLRES(r); }
         else if (!strcmp(op, "putstrf")) { char *k = cstr(b1, n1); size_t flen = (size_t)atol(a2); char *tx = ftext(flen); bool r; ENTER;
             FMTCALL(qtreetbl_putstrf(t, k, "%s", tx), qtreetbl_putstrf(t, k, "%0*d", (int)flen, 7)); LEAVE; cfree(k, n1 + 1); cfree(tx, flen + 1); BOOLRES(r); }
+        else if (!strcmp(op, "putself")) { void *k = cbuf(b1, n1); SELFARGS; size_t ds = 0; void *d = qtreetbl_getobj(t, k, n1, &ds, false);
+            qtreetbl_obj_t *o = d ? tfind_data(t->root, d) : NULL;
+            if (!o || so + SELFLEN(ds) > ds || !sl) { cfree(k, n1); fprintf(rf, "noself"); *perr = 0; }
+            else { set_alias(which, o->name, o->namesize, d, ds); ENTER; bool r = qtreetbl_putobj(t, (sm & 1) ? o->name : k, n1, (char *)d + so, sl); LEAVE; nalias = 0; cfree(k, n1); BOOLRES(r); } }
         else if (!strcmp(op, "get")) { void *k = cbuf(b1, n1); size_t ds = 0; ENTER; void *d = qtreetbl_getobj(t, k, n1, &ds, true); LEAVE; cfree(k, n1); PTRRES(d, ds); }
         else if (!strcmp(op, "remove")) { void *k = cbuf(b1, n1); ENTER; bool r = qtreetbl_removeobj(t, k, n1); LEAVE; cfree(k, n1); BOOLRES(r); }
         else if (!strcmp(op, "min") || !strcmp(op, "max")) { size_t ns = 0; ENTER; void *n = op[1] == 'i' ? qtreetbl_find_min(t, &ns) : qtreetbl_find_max(t, &ns); LEAVE; PTRRES(n, ns); }
@@ -398,6 +423,11 @@ static int do_op(int which, inst_t *I, const char *op, int *perr) {
         if (!strcmp(op, "put")) { char *k = cstr(b1, n1); void *v = cbuf(b2, n2); ENTER; bool r = qhashtbl_put(t, k, v, n2); LEAVE; cfree(k, n1 + 1); cfree(v, n2); BOOLRES(r); }
         else if (!strcmp(op, "putstrf")) { char *k = cstr(b1, n1); size_t flen = (size_t)atol(a2); char *tx = ftext(flen); bool r; ENTER;
             FMTCALL(qhashtbl_putstrf(t, k, "%s", tx), qhashtbl_putstrf(t, k, "%0*d", (int)flen, 7)); LEAVE; cfree(k, n1 + 1); cfree(tx, flen + 1); BOOLRES(r); }
+        else if (!strcmp(op, "putself")) { char *k = cstr(b1, n1); SELFARGS; size_t ds = 0; void *d = qhashtbl_get(t, k, &ds, false);
+            qhashtbl_obj_t *o = NULL;
+            if (d) for (size_t i = 0; i < t->range && !o; i++) for (qhashtbl_obj_t *x = t->slots[i]; x; x = x->next) if (x->data == d) { o = x; break; }
+            if (!o || so + SELFLEN(ds) > ds || !sl) { cfree(k, n1 + 1); fprintf(rf, "noself"); *perr = 0; }
+            else { set_alias(which, o->name, strlen(o->name) + 1, d, ds); ENTER; bool r = qhashtbl_put(t, (sm & 1) ? o->name : k, (char *)d + so, sl); LEAVE; nalias = 0; cfree(k, n1 + 1); BOOLRES(r); } }
         else if (!strcmp(op, "get")) { char *k = cstr(b1, n1); size_t ds = 0; ENTER; void *d = qhashtbl_get(t, k, &ds, true); LEAVE; cfree(k, n1 + 1); PTRRES(d, ds); }
         else if (!strcmp(op, "remove")) { char *k = cstr(b1, n1); ENTER; bool r = qhashtbl_remove(t, k); LEAVE; cfree(k, n1 + 1); BOOLRES(r); }
         else if (!strcmp(op, "next")) { ENTER; bool r = qhashtbl_getnext(t, &I->hcur, true); LEAVE;
@@ -411,6 +441,11 @@ static int do_op(int which, inst_t *I, const char *op, int *perr) {
         if (!strcmp(op, "put")) { char *k = cstr(b1, n1); void *v = cbuf(b2, n2); ENTER; bool r = qlisttbl_put(t, k, v, n2); LEAVE; cfree(k, n1 + 1); cfree(v, n2); BOOLRES(r); }
         else if (!strcmp(op, "putstrf")) { char *k = cstr(b1, n1); size_t flen = (size_t)atol(a2); char *tx = ftext(flen); bool r; ENTER;
             FMTCALL(qlisttbl_putstrf(t, k, "%s", tx), qlisttbl_putstrf(t, k, "%0*d", (int)flen, 7)); LEAVE; cfree(k, n1 + 1); cfree(tx, flen + 1); BOOLRES(r); }
+        else if (!strcmp(op, "putself")) { char *k = cstr(b1, n1); SELFARGS; size_t ds = 0; void *d = qlisttbl_get(t, k, &ds, false);
+            qlisttbl_obj_t *o = NULL;
+            if (d) for (qlisttbl_obj_t *x = t->first; x; x = x->next) if (x->data == d) { o = x; break; }
+            if (!o || so + SELFLEN(ds) > ds || !sl) { cfree(k, n1 + 1); fprintf(rf, "noself"); *perr = 0; }
+            else { set_alias(which, o->name, strlen(o->name) + 1, d, ds); ENTER; bool r = qlisttbl_put(t, (sm & 1) ? o->name : k, (char *)d + so, sl); LEAVE; nalias = 0; cfree(k, n1 + 1); BOOLRES(r); } }
         else if (!strcmp(op, "get")) { char *k = cstr(b1, n1); size_t ds = 0; ENTER; void *d = qlisttbl_get(t, k, &ds, true); LEAVE; cfree(k, n1 + 1); PTRRES(d, ds); }
         else if (!strcmp(op, "getmulti")) { char *k = cstr(b1, n1); size_t no = 0; ENTER; qlisttbl_data_t *m = qlisttbl_getmulti(t, k, true, &no); LEAVE; cfree(k, n1 + 1);
             if (m) { fprintf(rf, "n=%zu ", no); ret[nret++] = m; for (size_t i = 0; i < no && m[i].type == 2; i++) { if (i) fputc(',', rf); puthex(rf, m[i].data, m[i].size); if (nret < 127) ret[nret++] = m[i].data; } }
